@@ -195,7 +195,12 @@ def expected_op(t, regs, op):
                 idx += 1
             else:
                 idx = len(items)
-        return lst(out)
+        term = parts[3] if len(parts) > 3 else ""
+        rest = items[idx:]
+        tail = {"l": " last=" + (t.show(rest[-1]) if rest else "-"), "c": " count=%d" % len(rest),
+                "z": " len=%d,hint=%d-%d" % (len(rest), len(rest), len(rest)),
+                "f": " rest=[" + ",".join(t.show(q) for q in rest) + "]"}.get(term, "")
+        return lst(out)[0] + tail, None
     if name == "tao":
         off = int(parts[2])
         s, e = t.rng(p)
@@ -293,7 +298,8 @@ def check_nav_line(case, impl, only=None):
                 reg = None
         regs.append(reg)
     # handles held in registers keep reporting their true range
-    held = sections[1].split(" ")
+    held_part, _, classes_part = sections[1].partition(" ~ ")
+    held = held_part.split(" ")
     for i, h in enumerate(held):
         if h == "-":
             continue
@@ -311,4 +317,33 @@ def check_nav_line(case, impl, only=None):
             if x != y:
                 return "after the traversal element %s reports %s" % (y, x)
         return "final dump differs in length"
+    return None
+
+
+def check_identity(case, impl):
+    """C05, sequential part: two handles are equal exactly when they denote the same position, and equal handles hash equally"""
+    sections = impl.split(" ;; ")
+    if len(sections) != 3 or " ~ " not in sections[1]:
+        return None if impl.startswith("BUILD-PANIC") else "malformed output: " + impl[:200]
+    held_part, _, classes_part = sections[1].partition(" ~ ")
+    held, classes = held_part.split(" "), classes_part.split(",")
+    if len(held) != len(classes):
+        return "malformed identity classes"
+    by_class = {}
+    for i, (h, c) in enumerate(zip(held, classes)):
+        if (h == "-") != (c == "-"):
+            return "register %d: handle %s but class %s" % (i, h, c)
+        if h == "-":
+            continue
+        if c.endswith("h!"):
+            return "register %d holds a handle equal to an earlier one (%s) but their hashes differ" % (i, h)
+        pos = h.split("@")[0]
+        if c in by_class and by_class[c] != pos:
+            return "registers holding %s and %s compare equal although they denote different positions" % (by_class[c], pos)
+        by_class.setdefault(c, pos)
+    seen = {}
+    for c, pos in by_class.items():
+        if pos in seen:
+            return "two handles to position %s compare unequal" % pos
+        seen[pos] = c
     return None
